@@ -94,12 +94,14 @@ CHECKS = {
        "(never wraps); a receive never rewinds it. Asynchronous front-end (Model/AsyncDev.v: Device::send / join / rxc_listen, RX1/RX2 windows, Class C reception between the windows): "
        "C06_async_send_concludes_the_uplink -- for EVERY radio behaviour (any script of timeouts, errors, frames, pending receptions; a fault at any radio call; Class C or not) a send that "
        "returns, with a value or an error, has moved the session's counter past the counter of the frame it built or reports SessionExpired with the counter space exhausted, keys unchanged; "
-       "C06_async_counters_strictly_increase -- any two uplinks of one session are built from strictly increasing counters whatever happened in between (sends, Class C listening, DR/ADR "
-       "changes). The front-end model is tied to async_device/mod.rs by running both on the same histories (results and the trace of radio / timer calls compared). The non-blocking "
-       "front-end (nb_device) is exercised with a radio fault at every radio-call position from counters 0, 0xFFFF and 2^32-2; every frame handed to the radio by either front-end is "
-       "decoded with an independent codec and must carry strictly increasing 32-bit counters up to the reported session expiry.",
-  note=COMMON_NOTE + "PARTIAL for nb_device/state.rs only: checked by fault enumeration with an independent decoder, not modelled. The async model covers the default feature set (class-c; no multicast / certification); the executor is a 20-line no-waker poller; the timer completes at once (a pending rx_continuous loses against it).",
-  tech="machine-checked proof in Coq (MAC core + async front-end over all radio behaviours) + model/implementation correspondence on front-end histories + fault-position enumeration on nb_device with an independent decoding oracle", ref="6 C06"),
+       "C06_async_counters_strictly_increase -- any two uplinks of one session are built from strictly increasing counters whatever happened in between. Non-blocking front-end "
+       "(Model/NbDev.v: the state machine of nb_device/state.rs as a pure function of state, MAC, event and the radio's answer): C06_nb_counters_strictly_increase -- for EVERY sequence of "
+       "events (sends, radio events answered with Txing / TxDone / Idle / Rxing / an error / any packet, timeouts) and a fault at any radio call, two frames of a session are built from "
+       "strictly increasing counters until expiry is reported. Both front-end models are tied to the code by running model and implementation on the same histories (responses and the trace "
+       "of radio / timer calls compared); every frame handed to the radio by either front-end is also decoded with an independent codec and must carry strictly increasing 32-bit counters.",
+  note=COMMON_NOTE + "The front-end models cover the default feature set (class-c; no multicast / certification); the async executor is a 20-line no-waker poller and the scripted timer completes at once. "
+       "Repaired while proving: nb_device left FCntUp unchanged when the radio answered a TxRequest with an unexpected response (counter reuse).",
+  tech="machine-checked proof in Coq (MAC core + both front-ends over all radio behaviours / event sequences) + model/implementation correspondence on front-end histories + independent decoding oracle", ref="6 C06"),
  "C07": dict(
   text="Coq theorems (Props/C07.v): for every session state, configuration, channel plan and byte string: if the reference codec does not accept the frame (spec_accepts: "
        "reference MIC + freshness) and it is not oversized, handle_rx returns EXACTLY the same session, configuration, region and buffer with response NoUpdate (state equality, "
